@@ -145,7 +145,7 @@ Definition prog0 : list stmt :=
   [SNew (PCons (PC (red [97; 98])) (PCons (PS [99; 100]) PNil));     (* v0 = CHText(red('ab'), 'cd') *)
    SIadd 0 (PV 0);                                                   (* v0 += v0 *)
    SSlice 0 (Some 1) (Some (-2));                                    (* v1 = v0[1:-2] *)
-   SFixed 1 5;                                                       (* v2 = v1.fixed_len(5): v1 itself *)
+   SFixed 1 5;                                                       (* v2 = v1.fixed_len(5): same content as v1 *)
    SJoin 0 [PV 1; PC (red [])];                                      (* v3 = v0.join([v1, red('')]) *)
    OEq 1 (PV 2)].
 
@@ -153,11 +153,16 @@ Example prog0_ok : sfx0 [] = [] /\ Forall (stmt_ok sfx0) prog0.
 Proof. split; [reflexivity|]. repeat constructor. Qed.
 Print Assumptions prog0_ok.
 
+(* fixed_len of a text that already has the wanted length: the source decides (generated constant
+   fixed_len_aliases) whether v2 is v1 itself or a new object with the same content *)
 Example prog0_runs :
   map plain_text (heap (fst (exec init_state prog0))) =
-    [[97; 98; 99; 100; 97; 98; 99; 100]; [98; 99; 100; 97; 98];
-     [98; 99; 100; 97; 98; 97; 98; 99; 100; 97; 98; 99; 100]] /\
-  vars (fst (exec init_state prog0)) = [0; 1; 1; 2]%nat.
+    (if fixed_len_aliases
+     then [[97; 98; 99; 100; 97; 98; 99; 100]; [98; 99; 100; 97; 98];
+           [98; 99; 100; 97; 98; 97; 98; 99; 100; 97; 98; 99; 100]]
+     else [[97; 98; 99; 100; 97; 98; 99; 100]; [98; 99; 100; 97; 98]; [98; 99; 100; 97; 98];
+           [98; 99; 100; 97; 98; 97; 98; 99; 100; 97; 98; 99; 100]]) /\
+  vars (fst (exec init_state prog0)) = (if fixed_len_aliases then [0; 1; 1; 2] else [0; 1; 2; 3])%nat.
 Proof. vm_compute. split; reflexivity. Qed.
 Print Assumptions prog0_runs.
 
